@@ -30,7 +30,7 @@ CLAIMED = {
     'C05': ('exploration',
             'round-trip property testing (Hypothesis): write -> open -> write -> open -> write over generated images, byte comparison with the modification-date fields masked',
             'Each generated program (all profiles incl. El Torito sections, isohybrid, UDF, XA, duplicate PVDs, relocation, multi-sector continuation areas, with and without earlier generations) is mastered, then opened and written twice more under a pinned clock; B1 must equal B0 apart from the volume modification date fields and B2 must equal B1 exactly. The first differing byte is classified by the kind of on-disc object it lies in.',
-            'time.time/uuid4/random pinned by the harness. Images the library cannot reopen are C01/C02 findings and only counted.',
+            'time.time/uuid4/random pinned by the harness. An image just mastered that the library cannot open is reported here as well as by C01 (it cannot be re-mastered at all); histories that fail before that are C01/C02 findings and only counted.',
             'DESIGN.md section 3, C05'),
     'C06': ('exploration',
             'differential / metamorphic property testing (Hypothesis): same edits under generated schedules of force_consistency / queries / extra writes and both consistency modes must give identical bytes',
